@@ -90,7 +90,7 @@ def run(c: Check):
     # ---- code level: the filter returned by the real storage
     world_src = ["c02_world_test.go", "c02_pkg_test.go"]
     out_f, _ = c.go_harness(FS_PKG, "^TestVerifC02Flt$", files=world_src + ["c02_test.go"],
-                            env={"VERIF_N": 1500, "VERIF_WORLDS": 3 if th else 2})
+                            env={"VERIF_N": 1500, "VERIF_WORLDS": 3 if th else 2, "VERIF_REPS": 3 if th else 1})
     flt = read_ndjson(out_f)
 
     # the concretiser is shared: same file, package clause rewritten
@@ -103,7 +103,7 @@ def run(c: Check):
         f.write(world)
     out_m, _ = c.go_harness(MW_PKG, "^TestVerifC02Full$", files=["c02_pkg_test.go", "c02_test.go"],
                             extra_overlay={os.path.join(REPO, MW_PKG, "zz_verif_c02_world_test.go"): world_copy},
-                            env={"VERIF_WORLDS": 2})
+                            env={"VERIF_WORLDS": 2, "VERIF_REPS": 2 if th else 1})
     full = read_ndjson(out_m)
     if len(flt) < 800 or len(full) < 1500:
         raise Undecided("too few lines recorded: %d filter-level, %d full-stack" % (len(flt), len(full)))
@@ -155,7 +155,7 @@ def run(c: Check):
                      "filterstorage.Default for the client configuration of the vector; (full stack) a request through "
                      "the real ratelimitmw + mainmw with that storage, a scripted upstream and a recording query log. "
                      "Vectors: rule-slot product x reduced safety (all in thorough, 1500 sampled in quick), all 3^5 safety "
-                     "vectors, 39 verdict scenarios x 5 blocking modes x 4 qtypes x 4 upstream classes.  distinct by "
+                     "vectors, 37 verdict scenarios x 5 blocking modes x 4 qtypes x 4 upstream classes.  distinct by "
                      "(level, abstract vector, mode, qtype, upstream class, rule texts per slot, configured list order, "
                      "group switches, response rules); non-trivial = any rule, safety match or switch off")
     for smp in ([e for e in full if e["req"]["type"] == "blocked"][:1] +
